@@ -120,8 +120,29 @@ def sites(repo):
                                             "client.py", "packet.py")], sorted(fam)
 
 
+def handler_sites(repo):
+    """Every ``self.auth_handler = …`` in transport.py.  The blocking ``auth_*`` methods read ``self.auth_handler``
+    several times on the caller's thread while the transport thread may be shutting down, so the attribute must
+    never be reset to None once a handler exists (only ``__init__`` may store None)."""
+    tree = ast.parse(open(os.path.join(repo, "paramiko", "transport.py")).read())
+    out = []
+    for fn in ast.walk(tree):
+        if isinstance(fn, (ast.FunctionDef, ast.AsyncFunctionDef)):
+            for n in ast.walk(fn):
+                if isinstance(n, ast.Assign):
+                    for t in n.targets:
+                        if isinstance(t, ast.Attribute) and t.attr == "auth_handler" and \
+                                isinstance(t.value, ast.Name) and t.value.id == "self":
+                            is_none = isinstance(n.value, ast.Constant) and n.value.value is None
+                            out.append({"func": fn.name, "line": n.lineno,
+                                        "how": "none" if is_none else "value",
+                                        "safe": (not is_none) or fn.name == "__init__"})
+    return out
+
+
 def lean_table(repo):
     ss, fam = sites(repo)
+    hs = handler_sites(repo)
     lines = ["/- GENERATED by pv/lib_excsites.py from paramiko/*.py — do not edit. -/",
              "namespace PV.Generated.C38", "",
              "structure Site where", "  file : String", "  func : String", "  how : String", "  safe : Bool",
@@ -131,5 +152,10 @@ def lean_table(repo):
     rows = ['  { file := "%s", func := "%s", how := "%s", safe := %s }' %
             (s["file"], s["func"], s["how"], "true" if s["safe"] else "false") for s in ss]
     lines.append(",\n".join(rows))
+    lines += ["]", "",
+              "/-- every `self.auth_handler = …` in transport.py (`how` = none | value) -/",
+              "def handlerSites : List Site := ["]
+    lines.append(",\n".join('  { file := "transport.py", func := "%s", how := "%s", safe := %s }' %
+                            (h["func"], h["how"], "true" if h["safe"] else "false") for h in hs))
     lines += ["]", "", "end PV.Generated.C38", ""]
-    return "\n".join(lines), ss
+    return "\n".join(lines), ss + [dict(h, file="transport.py") for h in hs]
